@@ -2,12 +2,14 @@
   C19 — no input makes a reader hang or consume unbounded resources.
 
   What is PROVED here are the loops whose trip count is driven by on-disk values, on the models that the other checks tie to
-  pyctr: the RomFS metadata walk, the backward LZSS decoder, the seed-database loader.  Every model function is total (Lean's
+  pyctr: the RomFS metadata walk, the backward LZSS decoder, the seed-database loader, the chunk planner of the
+  fully-decrypted NCCH view.  Every model function is total (Lean's
   termination checker); where a fuel parameter stands in for a `while` loop, a theorem shows the fuel is never what stops it.
   For the remaining readers the bound is measured (line-event budget), see DESIGN.md §C19.
 -/
 import Proofs.CostProofs
 import Proofs.CodecProofs
+import Proofs.FullReadProofs
 namespace Pyctr.C19
 open Pyctr
 
@@ -37,5 +39,20 @@ theorem C19_lzss_items (cs de ctrl i : Nat) (s s' : Lzss.St) (h : Lzss.items cs 
 /-- seed database: the loader never accepts more entries than the file holds, whatever the count field says -/
 theorem C19_seeddb (f : Bytes) (es : List (Nat × Bytes)) (h : SeedDb.loadEntries f = some es) :
     0x20 * es.length + 0x10 ≤ max f.length 0x10 := SeedDb.load_bounded f es h
+
+/-- NCCH, fully-decrypted view: a read of ANY (offset, size) is the assembly of a plan of `fullChunks` chunks, and that number
+    times 0x200 is at most the length of the file plus one chunk - whatever content size the header claims (a 16-TiB claim in
+    a 1-KiB file used to buy 2^35 planning iterations: fixed in da3d81a); the plan has at most that many pieces -/
+theorem C19_ncch_full_read (E : Bytes → Bytes → Bytes) (s : Ncch.State) (file : Bytes) (start offset : Nat) (size : Int)
+    (r : Ncch.Region) (hr : s.region? Ncch.secFull = some r) :
+    (∃ before cutEnd lastKey,
+      Ncch.fullRead E s file start offset size =
+        if Ncch.fullChunks r.size file.length start offset size = 0 then .ok []
+        else Ncch.assemble (Ncch.getData E s file start) before cutEnd lastKey
+               (Ncch.plan s (offset - offset % 0x200) (Ncch.fullChunks r.size file.length start offset size))) ∧
+    Ncch.fullChunks r.size file.length start offset size * 0x200 ≤ file.length + 0x1FF ∧
+    (Ncch.plan s (offset - offset % 0x200) (Ncch.fullChunks r.size file.length start offset size)).length
+      ≤ Ncch.fullChunks r.size file.length start offset size :=
+  ⟨Ncch.fullRead_plan E s file start offset size r hr, Ncch.fullChunks_bound _ _ _ _ _, Ncch.plan_length s _ _⟩
 
 end Pyctr.C19
